@@ -10,6 +10,7 @@ import (
 	"log/slog"
 	"os"
 	"runtime"
+	"runtime/pprof"
 	"sort"
 	"strings"
 	"time"
@@ -112,7 +113,13 @@ func main() {
 		outf := fs.String("out", "", "report file")
 		bound := fs.Int("bound", -1, "override deviation bound")
 		budget := fs.Int("budget", -1, "override budget (s)")
+		cpuprof := fs.String("cpuprofile", "", "write a CPU profile")
 		fs.Parse(os.Args[2:])
+		if *cpuprof != "" {
+			f, _ := os.Create(*cpuprof)
+			pprof.StartCPUProfile(f)
+			defer pprof.StopCPUProfile()
+		}
 		j := findJob(*name)
 		if j == nil {
 			fmt.Fprintln(os.Stderr, "unknown job", *name)
@@ -128,6 +135,7 @@ func main() {
 			fmt.Println()
 		}
 		if ro.InfraErr != "" {
+			pprof.StopCPUProfile()
 			os.Exit(2)
 		}
 	case "replay":
